@@ -245,6 +245,9 @@ func c07Run3(c *Ctx, i int, depths map[string]bool) {
 		c.Inconclusive("learn3: " + err.Error())
 		return
 	}
+	if i%9 == 4 {
+		c07Aborted3(r, bb, cells)
+	}
 	fn, family, desc := c07Shape3(r, lat, bb, i%7)
 	if i%11 == 5 && lat.stride == 2 {
 		// a field that is undefined (NaN) exactly at centres of finest cubes - the points the octree tests for emptiness but
@@ -511,6 +514,39 @@ func diffTriangles(a, b []*sdf.Triangle3, tol float64) (missing, extra int) {
 
 type segKey [4]float64
 
+// c07Aborted2 / c07Aborted3 start a render of a disc / ball filling much of the box and let the shape panic after a few hundred
+// evaluations; the panic is recovered here.
+func c07Aborted2(r *Rng, bb sdf.Box2, cells int) {
+	n, limit := 0, r.IR(50, 900)
+	ctr, rad := bb.Center(), 0.4*bb.Size().X
+	bad := &fieldSDF2{bb: bb, fn: func(p v2.Vec) float64 {
+		if n++; n > limit {
+			panic("c07: shape gives up")
+		}
+		return p.Sub(ctr).Length() - rad
+	}}
+	func() {
+		defer func() { recover() }()
+		collectLines(render.NewMarchingSquaresQuadtree(cells), bad)
+	}()
+}
+
+func c07Aborted3(r *Rng, bb sdf.Box3, cells int) {
+	var n int64
+	limit := int64(r.IR(50, 3000))
+	ctr, rad := bb.Center(), 0.4*bb.Size().X
+	bad := &fieldSDF3{bb: bb, fn: func(p v3.Vec) float64 {
+		if atomic.AddInt64(&n, 1) > limit {
+			panic("c07: shape gives up")
+		}
+		return p.Sub(ctr).Length() - rad
+	}}
+	func() {
+		defer func() { recover() }()
+		render.ToTriangles(bad, render.NewMarchingCubesOctree(cells))
+	}()
+}
+
 func c07Run2(c *Ctx, i int, depths map[string]bool) {
 	r := c.Rng("2d", i)
 	cells := pickOne(r, []int{3, 5, 8, 13, 16, 24, 32, 50, 64, 100, 128, 200, 256})
@@ -523,6 +559,11 @@ func c07Run2(c *Ctx, i int, depths map[string]bool) {
 	if err != nil {
 		c.Inconclusive("learn2: " + err.Error())
 		return
+	}
+	if i%7 == 3 {
+		// history: an earlier render of another outline at the same resolution was aborted - its shape panicked part-way and
+		// the caller recovered (a user shape with a bug, a cancelled job). Nothing of it may survive into the next render.
+		c07Aborted2(r, bb, cells)
 	}
 	cx, cy := lat.cells()
 	cell := lat.cellSize().X
